@@ -57,7 +57,7 @@ def classify(pid, fails, events, res, matchers):
             else:
                 left.append(c)
         if left:
-            cls = "%s/%s: %s" % (e["op"], e.get("name", e.get("algo", e.get("variant", e.get("kind", "")))), ",".join(left))
+            cls = "%s/%s: %s" % (e["op"], e.get("name", e.get("algo", e.get("variant", e.get("family", e.get("kind", ""))))), ",".join(left))
             vc = res.notes.setdefault("violation_classes", {})
             vc[cls] = vc.get(cls, 0) + 1
             desc = "op=%s clauses=%s hashseed=%s src=%s" % (e["op"], ",".join(left), e.get("hashseed"),
